@@ -390,5 +390,53 @@ theorem activate_ok_of_noOne {zs : List Name} {d : Pop} (hz : zs ≠ []) {e : Ex
   obtain ⟨e', he', _⟩ := TrsoAux.so_activate_ok (d := d) hz e hc hr hn
   exact ⟨e', he'⟩
 
+/-! ### extras -/
+
+/-- on two non-fractions `*` does not recurse: the fuel is irrelevant -/
+theorem TrsoAux.so_mulF_fuel (f g : Nat) {x y : Expr} (hx : isFrac x = false) (hy : isFrac y = false) :
+    mulF (f + 1) x y = mulF (g + 1) x y := by
+  cases x <;> cases y <;> simp_all [mulF, isFrac]
+
+/-- `Fraction * Fraction` multiplies numerators and denominators (parts that are not fractions) -/
+theorem mul_frac_frac {N D a b e : Expr} (hN : isFrac N = false) (hD : isFrac D = false) (ha : isFrac a = false)
+    (hb : isFrac b = false) (h : mul (.frac N D) (.frac a b) = .ok e) :
+    ∃ N' D', mul N a = .ok N' ∧ mul D b = .ok D' ∧ mkFrac N' D' = .ok e := by
+  unfold mul at h
+  have hsz : size (.frac N D) + size (.frac a b) = (size N + size D + size a + size b + 1) + 1 := by
+    simp only [size]; omega
+  rw [hsz] at h
+  unfold mulF at h
+  simp only [] at h
+  obtain ⟨N', hN', h⟩ := bind_ok h
+  obtain ⟨D', hD', h⟩ := bind_ok h
+  refine ⟨N', D', ?_, ?_, h⟩
+  · unfold mul; rw [← hN']; exact TrsoAux.so_mulF_fuel _ _ hN ha
+  · unfold mul; rw [← hD']; exact TrsoAux.so_mulF_fuel _ _ hD hb
+
+theorem TrsoAux.so_chain_frac (x y : Expr) : chain (.frac x y) = none := rfl
+theorem TrsoAux.so_chain_prod (fs : List Expr) : chain (.prod fs) = none := rfl
+
+/-- when `Fraction.simplify` returns an iterated sum over a joint leaf, it is one of the numerator's factors -/
+theorem fracSimplify_chain_mem (S : LeafSem card leaf) (σ₀ : Val) {N D e : Expr} (hgN : Good S N) (hgD : Good S D)
+    (hN : Shape card leaf σ₀ N) (hD : Shape card leaf σ₀ D) (hfN : isFrac N = false) (hfD : isFrac D = false)
+    (hlt : denL card leaf N σ₀ / denL card leaf D σ₀ < 1)
+    (hle : ∀ f ∈ factors D, denL card leaf f σ₀ ≤ 1) (h : fracSimplify N D = .ok e)
+    (hch : (chain e).isSome = true) : e ∈ factors N := by
+  rcases TrsoAux.so_fracSimplify_cases S σ₀ hgN hgD hN hD hlt hle h with ⟨x, y, rfl, _, _, _⟩ | ⟨n', hne, hm, rfl⟩
+  · simp [TrsoAux.so_chain_frac] at hch
+  · have h1 : ∀ f ∈ n', isOne f = false := fun f hf =>
+      TrsoAux.so_noOne_isOne (TrsoAux.so_factors_shape σ₀ hN f (hm f hf)).noOne
+    have h0 : ∀ f ∈ n', isZero f = false := fun f hf =>
+      clean_not_zero (TrsoAux.so_factors_clean hgN.1 f (hm f hf))
+    match n', hne, hm, h1, h0, hch with
+    | [f], _, hm, h1, h0, _ =>
+      have : productSafe [f] = f := by
+        unfold productSafe
+        simp [h1 f (by simp), h0 f (by simp)]
+      rw [this]; exact hm f (by simp)
+    | a :: b :: r, _, _, h1, h0, hch =>
+      rw [TrsoAux.so_productSafe_eq h1 h0 (by simp), TrsoAux.so_chain_prod] at hch
+      simp at hch
+
 end Trso
 end Y0
